@@ -133,6 +133,9 @@ func buildChain(steps []ErrStep, nodes *[]*enode, excludedF1 *int) (*enode, *evi
 		case "wrapf":
 			n := &enode{err: fmt.Errorf("%s: %w", msg, cur.err), kind: kPlain, cause: cur, wrapf: true, step: i}
 			cur = n
+		case "wrapsame": // a wrapper whose text equals the text of what it wraps
+			n := &enode{err: fmt.Errorf("%w", cur.err), kind: kPlain, cause: cur, wrapf: true, step: i}
+			cur = n
 		case "pewrap":
 			res := thrift.NewProtocolExceptionWithErr(cur.err)
 			if dynKind(cur.err) == kProtocol {
@@ -295,7 +298,7 @@ func genErrStep(t *rapid.T, leaf bool) ErrStep {
 	if leaf {
 		s.Op = rapid.SampledFrom([]string{"plain", "eof", "transport", "protocol", "protocol", "application", "foreign", "foreign"}).Draw(t, "leaf")
 	} else {
-		s.Op = rapid.SampledFrom([]string{"wrapf", "pewrap", "pewrap", "prepend", "prepend", "prepend"}).Draw(t, "wrap")
+		s.Op = rapid.SampledFrom([]string{"wrapf", "wrapsame", "pewrap", "pewrap", "pewrap", "prepend", "prepend", "prepend"}).Draw(t, "wrap")
 	}
 	s.TypeID = rapid.OneOf(rapid.SampledFrom(namedCodes), rapid.Int32()).Draw(t, "typeid")
 	switch rapid.IntRange(0, 4).Draw(t, "msgKind") {
@@ -358,13 +361,16 @@ func TestC18_Table(t *testing.T) {
 	b := evid.NewBatch()
 	leaves := []string{"plain", "eof", "transport", "protocol", "application", "foreign"}
 	texts := []string{"", "m", "unknown application exception", "\xff\x00"}
-	wraps := []ErrStep{{Op: "wrapf", Msg: []byte("w")}, {Op: "pewrap"}, {Op: "prepend"}, {Op: "prepend", Msg: []byte("p: ")}}
+	wraps := []ErrStep{{Op: "wrapf", Msg: []byte("w")}, {Op: "wrapsame"}, {Op: "pewrap"}, {Op: "prepend"}, {Op: "prepend", Msg: []byte("p: ")}}
 	var seqs [][]ErrStep
 	seqs = append(seqs, nil)
 	for _, w1 := range wraps {
 		seqs = append(seqs, []ErrStep{w1})
 		for _, w2 := range wraps {
 			seqs = append(seqs, []ErrStep{w1, w2})
+			if w1.Op == "pewrap" {
+				seqs = append(seqs, []ErrStep{w1, w2, {Op: "pewrap"}})
+			}
 		}
 	}
 	for _, lf := range leaves {
